@@ -860,3 +860,115 @@ func runR814(c *core.Ctx) {
 		c.Undecided("R8.14", "binprot#get-reply-bodies", "-", "no binary responder function writing a get response found")
 	}
 }
+
+// ---------------------------------------------------------------- R8.15
+
+// runR815: a text value reply is a complete frame: the VALUE line, the data block, and the \r\n that ends the block, in
+// that order, before the flush. The ordered list of what TextResponder.Get writes after the hit test must be
+// [format "VALUE %s %d %d\r\n", response.Data, "\r\n"].
+func runR815(c *core.Ctx) {
+	c.Rule("R8.15", "a text value reply is a complete frame: VALUE line, data block, terminating \\r\\n, in that order", 1)
+	ri := c.P.Iface("protocol", "Responder")
+	if ri == nil {
+		c.Undecided("R8.15", "protocol.Responder", "-", "interface not found")
+		return
+	}
+	pv := &ssax.Prov{}
+	n := 0
+	for _, impl := range c.P.Implementers(ri) {
+		if impl.Named.Obj().Pkg() == nil || !strings.HasSuffix(impl.Named.Obj().Pkg().Path(), "protocol/textprot") {
+			continue
+		}
+		fn := c.P.Method(impl, "Get")
+		if fn == nil || len(fn.Blocks) == 0 {
+			continue
+		}
+		n++
+		type item struct {
+			pos  token.Pos
+			what string
+		}
+		var seq []item
+		ssax.Instrs(fn, func(ins ssa.Instruction) {
+			cc := ssax.CallOf(ins)
+			if cc == nil {
+				return
+			}
+			switch ssax.CalleeName(cc) {
+			case "fmt.Fprintf":
+				if f, ok := ssax.ConstString(cc.Args[1]); ok {
+					seq = append(seq, item{ins.Pos(), "format:" + f})
+				} else {
+					seq = append(seq, item{ins.Pos(), "format:?"})
+				}
+			case "(*bufio.Writer).WriteString":
+				if s, ok := ssax.ConstString(cc.Args[1]); ok {
+					seq = append(seq, item{ins.Pos(), "string:" + s})
+				} else {
+					seq = append(seq, item{ins.Pos(), "string:?"})
+				}
+			case "(*bufio.Writer).Write":
+				what := "bytes:?"
+				for _, s := range pv.Sources(cc.Args[1]) {
+					if s.Kind == "param" && len(s.Path) == 1 {
+						what = "field:" + s.Path[0]
+					} else if s.Kind == "const" {
+						if str, ok := ssax.ConstString(s.V); ok {
+							what = "string:" + str
+						}
+					}
+				}
+				seq = append(seq, item{ins.Pos(), what})
+			}
+		})
+		sort.Slice(seq, func(i, j int) bool { return seq[i].pos < seq[j].pos })
+		var got []string
+		for _, it := range seq {
+			got = append(got, it.what)
+		}
+		key := "textprot." + impl.Named.Obj().Name() + ".Get#value-frame"
+		di := -1
+		for i, g := range got {
+			if g == "field:Data" {
+				di = i
+			}
+		}
+		text := func(s string) (string, bool) {
+			for _, p := range []string{"format:", "string:"} {
+				if strings.HasPrefix(s, p) {
+					t := strings.TrimPrefix(s, p)
+					return t, t != "?"
+				}
+			}
+			return "", false
+		}
+		switch {
+		case di < 0:
+			c.Violate("R8.15", key, c.P.Pos(fn.Pos()), fmt.Sprintf("the hit is written as %q: the data block itself is never written", got))
+		default:
+			head, known := "", true
+			for _, g := range got[:di] {
+				t, ok := text(g)
+				known = known && ok
+				head += t
+			}
+			tail, tailKnown := "", di+1 < len(got)
+			if tailKnown {
+				tail, tailKnown = text(got[di+1])
+			}
+			switch {
+			case !known || (di+1 < len(got) && !tailKnown):
+				c.Undecided("R8.15", key, c.P.Pos(fn.Pos()), fmt.Sprintf("the frame is written as %q with parts that are not constant text: not decided", got))
+			case !strings.HasPrefix(head, "VALUE ") || !strings.HasSuffix(head, "\r\n"):
+				c.Violate("R8.15", key, c.P.Pos(fn.Pos()), fmt.Sprintf("before the data block the responder writes %q, not a VALUE line ending in \\r\\n", head))
+			case !strings.HasPrefix(tail, "\r\n"):
+				c.Violate("R8.15", key, c.P.Pos(fn.Pos()), fmt.Sprintf("the hit is written as %q: the data block is not followed by \\r\\n, so the client cannot tell where the value ends (it reads the next reply as data)", got))
+			default:
+				c.OK("R8.15", key, c.P.Pos(fn.Pos()), "VALUE line, data block, \\r\\n")
+			}
+		}
+	}
+	if n == 0 {
+		c.Undecided("R8.15", "textprot#value-frame", "-", "no text responder found")
+	}
+}
